@@ -63,6 +63,14 @@ package shape
 //@   nooverflow
 //@   ensures [shape] nf(r0) == 3 && fld(r0, 0) == num(hZoom)
 //@ end
+//@ -- IEEE semantics: the column index is a column of the grid for every longitude of the documented domain
+//@ -- (the index is clamped to the last column, so a sum lon+180 that rounds up to 360 cannot produce 2^h)
+//@ case getHorizontalTileIdOnPoint column-in-grid
+//@   nooverflow
+//@   split hZoom 0..35
+//@   requires 0.0 - 180.0 <= lon && lon <= 180.0
+//@   ensures [x-in-grid] 0 <= val(fld(r0, 1)) && val(fld(r0, 1)) < pow2(hZoom)
+//@ end
 //@ -- ideal reals: the formulas of the property (detects any change of the formula; says nothing about rounding)
 //@ case getHorizontalTileIdOnPoint ideal-formula
 //@   float ideal
@@ -71,7 +79,7 @@ package shape
 //@   -- trusted Mercator bound: 85.0511287798 is the latitude where |asinh(tan lat)| reaches pi
 //@   requires abs(asinh(tan(lat * deg2rad))) <= pi
 //@   ensures [x] val(fld(r0, 1)) == floor(rpow2(hZoom) * (ite(lon == 180.0, 0.0 - 180.0, lon) + 180.0) / 360.0)
-//@   ensures [ranges] 0 <= val(fld(r0, 1)) && val(fld(r0, 1)) <= pow2(hZoom) && 0 <= val(fld(r0, 2)) && val(fld(r0, 2)) <= pow2(hZoom)
+//@   ensures [ranges] 0 <= val(fld(r0, 1)) && val(fld(r0, 1)) < pow2(hZoom) && 0 <= val(fld(r0, 2)) && val(fld(r0, 2)) <= pow2(hZoom)
 //@   ensures [y] val(fld(r0, 2)) == floor(rpow2(hZoom) * (1.0 - asinh(tan(lat * deg2rad)) / pi) / 2.0)
 //@ end
 
